@@ -35,7 +35,7 @@ func NewNode(node int64, min int64) (Node, error) {
 func (n *HardNode) Generate() int64 {
 	n.mu.Lock()
 	defer n.mu.Unlock()
-	var now = _HookNow().UnixNano()/MsDivNs - n.epoch
+	var now = _HookNow().UnixMilli() - n.epoch
 
 	if now > n.time {
 		n.step = 0
